@@ -173,18 +173,18 @@ Lemma field_rel_refl f : field_rel f f.
 Proof. split; [apply item_rel_refl|]. destruct f; try exact I; apply item_rel_refl. Qed.
 
 Lemma enum_core_ext name nm pfx opts extra :
-  enum_append_ok opts extra -> enum_ext (cv_enum name (mkEnum nm pfx opts)) (cv_enum name (mkEnum nm pfx (opts ++ extra))).
+  enum_ext (cv_enum name (mkEnum nm pfx opts)) (cv_enum name (mkEnum nm pfx (opts ++ extra))).
 Proof.
-  intros Hok. destruct opts as [|o0 r].
-  { (* an enum without options: the implicit zero value stays when the first new option does
-       not end in UNSPECIFIED *)
-    destruct Hok as [Hne|Hx]; [contradiction Hne; reflexivity|].
+  destruct opts as [|o0 r].
+  { (* an enum without options: value 0 is <PREFIX>UNSPECIFIED before and after, whatever the
+       first new option is called *)
     destruct extra as [|o r]; [split; [reflexivity|exists []; rewrite app_nil_r; reflexivity]|].
     unfold J5sConvert.cv_enum. cbn [e_opts e_prefix app].
-    change (has_suffix unspecified o = false) in Hx. rewrite Hx.
-    split; cbn [en_name en_vals]; [reflexivity|]. eexists. cbn [app]. reflexivity. }
+    destruct (explicit_zero _ o) eqn:Hx; (split; cbn [en_name en_vals]; [reflexivity|]).
+    - unfold explicit_zero in Hx. apply str_eqb_eq in Hx. rewrite Hx. eexists. cbn [app]. reflexivity.
+    - eexists. cbn [app]. reflexivity. }
   unfold J5sConvert.cv_enum. cbn [e_opts e_prefix app].
-  destruct (has_suffix unspecified o0); split; cbn [en_name en_vals]; try reflexivity.
+  destruct (explicit_zero _ o0); split; cbn [en_name en_vals]; try reflexivity.
   - rewrite (number_opts_app snake camel screaming). eexists. rewrite app_comm_cons. reflexivity.
   - change (o0 :: r ++ extra) with ((o0 :: r) ++ extra). rewrite (number_opts_app snake camel screaming).
     eexists. rewrite app_comm_cons. reflexivity.
@@ -240,9 +240,9 @@ Proof.
     rewrite (cv_item_oneof snake camel screaming) in H, H'. inv_ok H. inv_ok H'. inversion H. inversion H'. subst. clear H H'.
     destruct (IH _ _ _ _ _ E E0) as (Pf & Pm & Pe). unfold core_ext. cbn [fc_type fc_tname fc_msgs fc_enums].
     repeat split; [|constructor]. apply sl_keep; [constructor; assumption|constructor].
-  - intros nm pfx opts extra Hne. split; [|exact I]. intros path dflt c c' H H'. cbn in H, H'.
+  - intros nm pfx opts extra. split; [|exact I]. intros path dflt c c' H H'. cbn in H, H'.
     inversion H. inversion H'. subst. unfold core_ext. cbn [fc_type fc_tname fc_msgs fc_enums e_name].
-    repeat split; [constructor|]. apply sl_keep; [apply enum_core_ext; exact Hne|constructor].
+    repeat split; [constructor|]. apply sl_keep; [apply enum_core_ext|constructor].
   - intros it it' Hit [IH _]. split; [|exact IH]. intros path dflt c c' H. cbn in H. discriminate.
   - intros it it' Hit [IH _]. split; [|exact IH]. intros path dflt c c' H. cbn in H. discriminate.
   - intros extra path io n r r' H _. cbn in H. inversion H. subst. unfold pres_ext. cbn.
@@ -266,50 +266,30 @@ Proof. intros H. induction virt as [|p r IH]; cbn; [exact H|]. destruct p. const
 Lemma props_ext_snoc ps extra : props_ext ps (papp ps extra).
 Proof. induction ps as [|p r IH]; cbn; [constructor|]. destruct p. constructor; [apply fe_refl|exact IH]. Qed.
 
-(* enum options appended *)
+(* enum options appended: every earlier value keeps name and number, for EVERY enum and every
+   option names (before fix a65e1f2: not for an option ending in UNSPECIFIED appended to an enum
+   without options, which became the zero value) *)
 Lemma cv_enum_ext name nm pfx opts extra :
-  enum_append_ok opts extra -> enum_ext (cv_enum name (mkEnum nm pfx opts)) (cv_enum name (mkEnum nm pfx (opts ++ extra))).
+  enum_ext (cv_enum name (mkEnum nm pfx opts)) (cv_enum name (mkEnum nm pfx (opts ++ extra))).
 Proof.
-  intros Hok. destruct opts as [|o0 r].
-  { (* an enum without options: the implicit zero value stays when the first new option does
-       not end in UNSPECIFIED *)
-    destruct Hok as [Hne|Hx]; [contradiction Hne; reflexivity|].
+  destruct opts as [|o0 r].
+  { (* an enum without options: value 0 is <PREFIX>UNSPECIFIED before and after, whatever the
+       first new option is called *)
     destruct extra as [|o r]; [split; [reflexivity|exists []; rewrite app_nil_r; reflexivity]|].
     unfold J5sConvert.cv_enum. cbn [e_opts e_prefix app].
-    change (has_suffix unspecified o = false) in Hx. rewrite Hx.
-    split; cbn [en_name en_vals]; [reflexivity|]. eexists. cbn [app]. reflexivity. }
+    destruct (explicit_zero _ o) eqn:Hx; (split; cbn [en_name en_vals]; [reflexivity|]).
+    - unfold explicit_zero in Hx. apply str_eqb_eq in Hx. rewrite Hx. eexists. cbn [app]. reflexivity.
+    - eexists. cbn [app]. reflexivity. }
   unfold J5sConvert.cv_enum. cbn [e_opts e_prefix app].
-  destruct (has_suffix unspecified o0); split; cbn [en_name en_vals]; try reflexivity.
+  destruct (explicit_zero _ o0); split; cbn [en_name en_vals]; try reflexivity.
   - rewrite (number_opts_app snake camel screaming). eexists. rewrite app_comm_cons. reflexivity.
   - change (o0 :: r ++ extra) with ((o0 :: r) ++ extra). rewrite (number_opts_app snake camel screaming).
     eexists. rewrite app_comm_cons. reflexivity.
 Qed.
 
-(* ... and exactly then: appending ONE option keeps every earlier value (name, number) if and
-   only if the enum has options, or the option does not end in UNSPECIFIED, or it spells the
-   implicit zero value itself (`option UNSPECIFIED` / `option <PREFIX>UNSPECIFIED`).  The
-   complement - an enum without options + an option ending in UNSPECIFIED with a name of its
-   own - is the recorded finding; nothing else renames or renumbers an enum value. *)
-Theorem cv_enum_snoc_exact name nm pfx opts o :
-  enum_ext (cv_enum name (mkEnum nm pfx opts)) (cv_enum name (mkEnum nm pfx (opts ++ [o]))) <->
-  (opts <> [] \/ unspec o = false \/
-   value_name (enum_prefix screaming name pfx) o = enum_prefix screaming name pfx ++ unspecified).
-Proof.
-  split.
-  - intros [_ [t Ht]]. destruct opts as [|o0 r]; [|left; discriminate]. right.
-    destruct (unspec o) eqn:E; [right|left; reflexivity].
-    unfold J5sConvert.cv_enum in Ht. cbn [e_opts e_prefix app en_vals] in Ht.
-    change (has_suffix unspecified o) with (unspec o) in Ht. rewrite E in Ht.
-    cbn [app] in Ht. inversion Ht. reflexivity.
-  - intros [H|[H|H]].
-    + apply cv_enum_ext. left. exact H.
-    + apply cv_enum_ext. right. exact H.
-    + destruct opts as [|o0 r]; [|apply cv_enum_ext; left; discriminate].
-      unfold J5sConvert.cv_enum. cbn [e_opts e_prefix app].
-      destruct (has_suffix unspecified o); split; cbn [en_name en_vals]; try reflexivity.
-      * rewrite H. exists []. reflexivity.
-      * eexists. cbn [app]. reflexivity.
-Qed.
+Theorem cv_enum_snoc_always name nm pfx opts o :
+  enum_ext (cv_enum name (mkEnum nm pfx opts)) (cv_enum name (mkEnum nm pfx (opts ++ [o]))).
+Proof. apply cv_enum_ext. Qed.
 
 (* declared objects / oneofs / enums with their nested declarations *)
 Theorem nested_ext_core ev ev' (Hle : env_le ev ev') :
@@ -336,8 +316,8 @@ Proof.
     destruct (proj2 (ext_core ev ev' Hle) _ _ Hps _ _ _ _ _ E E1) as (Pf & Pm & Pe).
     destruct (IH _ _ _ _ _ _ _ E0 E2) as [Sm Se].
     split; [|constructor]. apply sl_keep; [|apply sl_nil]. constructor; [exact Pf| |]; apply sub_list_app; assumption.
-  - intros nm pfx opts extra Hne path ms es is ms' es' is' H H'. cbn in H, H'. inversion H. inversion H'. subst.
-    split; [constructor|]. apply sl_keep; [apply cv_enum_ext; exact Hne|constructor].
+  - intros nm pfx opts extra path ms es is ms' es' is' H H'. cbn in H, H'. inversion H. inversion H'. subst.
+    split; [constructor|]. apply sl_keep; [apply cv_enum_ext|constructor].
   - intros extra path ms es is ms' es' is' H _. cbn in H. inversion H. split; constructor.
   - intros n n' r r' Hn IHn Hr IHr path ms es is ms' es' is' H H'.
     rewrite (cv_nesteds_cons snake camel screaming) in *. inv_ok H. inv_ok H'.
@@ -610,7 +590,7 @@ Proof.
   intros HF. induction HF as [|e e' r r' He Hr IH]; intros m s t m' s' t' m1 s1 t1 m1' s1' t1' Hm Hs Ht H H'.
   - cbn in H, H'. inversion H. inversion H'. subst. auto.
   - cbn [J5sConvert.cv_elements] in H, H'.
-    destruct He as [nm ps ps' subs subs' Hps Hsubs|nm ps ps' subs subs' Hps Hsubs|en|nm pfx opts extra Hne|nm base ms ms' HFm|tp tp' Htp].
+    destruct He as [nm ps ps' subs subs' Hps Hsubs|nm ps ps' subs subs' Hps Hsubs|en|nm pfx opts extra|nm base ms ms' HFm|tp tp' Htp].
     + apply obind_ok in H. destruct H as ([[ms es] is] & E & H).
       apply obind_ok in H'. destruct H' as ([[ms' es'] is'] & E' & H').
       destruct (cv_nested_obj_ext _ _ Hle _ _ _ _ _ _ _ _ _ _ _ _ Hps Hsubs E E') as (S & -> & ->).
@@ -625,7 +605,7 @@ Proof.
       apply facc_ext_add; try assumption; try constructor; [apply enum_ext_refl|constructor].
     + eapply IH; [| | |exact H|exact H']; try assumption.
       apply facc_ext_add; try assumption; try constructor; [|constructor].
-      cbn [e_name]. apply cv_enum_ext. exact Hne.
+      cbn [e_name]. apply cv_enum_ext.
     + apply obind_ok in H. destruct H as ([[ms1 ss1] is1] & E & H).
       apply obind_ok in H'. destruct H' as ([[ms1' ss1'] is1'] & E' & H').
       destruct (cv_service_ext _ _ Hle _ _ _ _ _ _ _ _ _ _ HFm E E') as [S ->].
@@ -686,16 +666,6 @@ Proof. induction ps as [|p r IH]; cbn; [reflexivity|]. rewrite IH. reflexivity. 
 Lemma papp_assoc x y z : papp (papp x y) z = papp x (papp y z).
 Proof. induction x as [|p r IH]; cbn; [reflexivity|]. rewrite IH. reflexivity. Qed.
 
-Lemma enum_append_ok_trans opts x y :
-  enum_append_ok opts x -> enum_append_ok (opts ++ x) y -> enum_append_ok opts (x ++ y).
-Proof.
-  intros [H|H] H'; [left; exact H|]. destruct opts as [|o r]; [|left; discriminate].
-  right. destruct x as [|a t]; [|exact H]. cbn [app] in *.
-  destruct H' as [H'|H']; [contradiction H'; reflexivity|exact H'].
-Qed.
-Lemma enum_append_ok_nil opts : enum_append_ok opts [].
-Proof. right. exact I. Qed.
-
 Theorem props_ext_trans :
   (forall a c, field_ext a c -> forall d, field_ext c d -> field_ext a d) /\
   (forall a c, props_ext a c -> forall d, props_ext c d -> props_ext a d).
@@ -704,9 +674,9 @@ Proof.
   - intros f d H. exact H.
   - intros nm ps ps' Hps IH d H. inversion H; subst; [constructor; exact Hps|constructor; apply IH; assumption].
   - intros nm ps ps' Hps IH d H. inversion H; subst; [constructor; exact Hps|constructor; apply IH; assumption].
-  - intros nm pfx opts extra Hne d H. inversion H as [| | |nm' pfx' opts' extra' Hne' E1 E2| |]; subst.
-    + constructor. exact Hne.
-    + rewrite <- app_assoc. constructor. apply enum_append_ok_trans; assumption.
+  - intros nm pfx opts extra d H. inversion H as [| | |nm' pfx' opts' extra' E1 E2| |]; subst.
+    + constructor.
+    + rewrite <- app_assoc. constructor.
   - intros it it' Hit IH d H. inversion H; subst; [constructor; exact Hit|constructor; apply IH; assumption].
   - intros it it' Hit IH d H. inversion H; subst; [constructor; exact Hit|constructor; apply IH; assumption].
   - intros extra d _. constructor.
@@ -725,9 +695,9 @@ Proof.
   - intros nm ps ps' subs subs' Hps Hs IH d H. inversion H; subst.
     + constructor; assumption.
     + constructor; [eapply (proj2 props_ext_trans); eassumption|apply IH; assumption].
-  - intros nm pfx opts extra Hne d H. inversion H as [| | |nm' pfx' opts' extra' Hne' E1 E2]; subst.
-    + constructor. exact Hne.
-    + rewrite <- app_assoc. constructor. apply enum_append_ok_trans; assumption.
+  - intros nm pfx opts extra d H. inversion H as [| | |nm' pfx' opts' extra' E1 E2]; subst.
+    + constructor.
+    + rewrite <- app_assoc. constructor.
   - intros extra d _. constructor.
   - intros n n' r r' Hn IHn Hr IHr d H. inversion H; subst. constructor; [apply IHn; assumption|apply IHr; assumption].
 Qed.
@@ -791,13 +761,13 @@ Qed.
 
 Lemma element_ext_trans a c d : element_ext a c -> element_ext c d -> element_ext a d.
 Proof.
-  intros H H'. destruct H as [nm ps ps' subs subs' Hps Hs|nm ps ps' subs subs' Hps Hs|en|nm pfx opts x Hne|nm base ms ms' HF|t t' Ht].
+  intros H H'. destruct H as [nm ps ps' subs subs' Hps Hs|nm ps ps' subs subs' Hps Hs|en|nm pfx opts x|nm base ms ms' HF|t t' Ht].
   - inversion H'; subst. constructor; [eapply (proj2 props_ext_trans); eassumption|eapply (proj2 nesteds_ext_trans); eassumption].
   - inversion H'; subst. constructor; [eapply (proj2 props_ext_trans); eassumption|eapply (proj2 nesteds_ext_trans); eassumption].
   - exact H'.
-  - inversion H' as [| |en' E1 E2|nm' pfx' opts' y Hne' E1 E2| |]; subst.
-    + constructor. exact Hne.
-    + rewrite <- app_assoc. constructor. apply enum_append_ok_trans; assumption.
+  - inversion H' as [| |en' E1 E2|nm' pfx' opts' y E1 E2| |]; subst.
+    + constructor.
+    + rewrite <- app_assoc. constructor.
   - inversion H'; subst. constructor. eapply forall2_trans; [exact method_ext_trans| |]; eassumption.
   - inversion H'; subst. constructor. eapply topic_ext_trans; eassumption.
 Qed.
@@ -824,116 +794,96 @@ Proof.
   apply forall2_refl. exact Hr.
 Qed.
 
-(* an option may be appended to an enum that has options, and to an enum without options unless
-   it ends in UNSPECIFIED: that one would take the place of the implicit zero value - wherever
-   the enum sits (J5sEdit.element_edit_ok / at_ok) *)
-Definition edit_ok (e : edit) (f : jfile) : Prop :=
-  match e with
-  | EAppendOption _ k _ | EAppendIn _ k _ _ _ => nth_ok k (element_edit_ok e) (jf_elements f)
-  | _ => True
-  end.
-
 Lemma enum_snoc_ext e o :
-  enum_append_ok (e_opts e) [o] ->
   field_ext (FEnumInline e) (FEnumInline (enum_snoc e o)) /\ nested_ext (NEnum e) (NEnum (enum_snoc e o)).
 Proof.
-  destruct e as [nm pfx opts]. unfold enum_snoc. cbn [e_opts e_name e_prefix]. intros H. split; constructor; exact H.
+  destruct e as [nm pfx opts]. unfold enum_snoc. cbn [e_opts e_name e_prefix]. split; constructor.
 Qed.
 
-Lemma in_field_ext onmsg onenum (P : props -> Prop) (E : enum -> Prop) :
-  (forall ps, P ps -> props_ext ps (onmsg ps)) -> (forall e, E e -> field_ext (FEnumInline e) (FEnumInline (onenum e))) ->
-  forall f, field_at_ok P E f -> field_ext f (in_field onmsg onenum f).
+Lemma in_field_ext onmsg onenum :
+  (forall ps, props_ext ps (onmsg ps)) -> (forall e, field_ext (FEnumInline e) (FEnumInline (onenum e))) ->
+  forall f, field_ext f (in_field onmsg onenum f).
 Proof.
-  intros Hg He f. induction f; cbn [in_field field_at_ok]; intros H; try apply fe_refl.
-  - constructor. apply Hg. exact H.
-  - constructor. apply Hg. exact H.
-  - apply He. exact H.
-  - constructor. apply IHf. exact H.
-  - constructor. apply IHf. exact H.
+  intros Hg He f. induction f; cbn [in_field]; try apply fe_refl.
+  - constructor. apply Hg.
+  - constructor. apply Hg.
+  - apply He.
+  - constructor. apply IHf.
+  - constructor. apply IHf.
 Qed.
 
-Lemma in_nested_ext onmsg onenum (P : props -> nesteds -> Prop) (E : enum -> Prop) :
-  (forall ps subs, P ps subs -> props_ext ps (fst (onmsg ps subs)) /\ nesteds_ext subs (snd (onmsg ps subs))) ->
-  (forall e, E e -> nested_ext (NEnum e) (NEnum (onenum e))) ->
-  forall n, nested_at_ok P E n -> nested_ext n (in_nested onmsg onenum n).
+Lemma in_nested_ext onmsg onenum :
+  (forall ps subs, props_ext ps (fst (onmsg ps subs)) /\ nesteds_ext subs (snd (onmsg ps subs))) ->
+  (forall e, nested_ext (NEnum e) (NEnum (onenum e))) ->
+  forall n, nested_ext n (in_nested onmsg onenum n).
 Proof.
-  intros Hg He n. destruct n as [nm ps subs|nm ps subs|e]; cbn [in_nested nested_at_ok]; intros H.
-  - destruct (Hg ps subs H) as [A B]. destruct (onmsg ps subs). constructor; assumption.
-  - destruct (Hg ps subs H) as [A B]. destruct (onmsg ps subs). constructor; assumption.
-  - apply He. exact H.
+  intros Hg He n. destruct n as [nm ps subs|nm ps subs|e]; cbn [in_nested].
+  - destruct (Hg ps subs) as [A B]. destruct (onmsg ps subs). constructor; assumption.
+  - destruct (Hg ps subs) as [A B]. destruct (onmsg ps subs). constructor; assumption.
+  - apply He.
 Qed.
 
-Lemma update_prop_ext g (Q : field -> Prop) : (forall f, Q f -> field_ext f (g f)) ->
-  forall ps i, prop_at i Q ps -> props_ext ps (update_prop i g ps).
+Lemma update_prop_ext g : (forall f, field_ext f (g f)) ->
+  forall ps i, props_ext ps (update_prop i g ps).
 Proof.
-  intros Hg ps. induction ps as [|[n rq op f] r IH]; intros i H; destruct i; cbn [update_prop prop_at] in *; try constructor;
-    try apply props_ext_refl; try (apply Hg; exact H); try (apply IH; exact H).
+  intros Hg ps. induction ps as [|[n rq op f] r IH]; intros i; destruct i; cbn [update_prop] in *; try constructor;
+    try apply props_ext_refl; try apply Hg; try apply IH.
 Qed.
 
-Lemma update_nested_ext g (Q : nested -> Prop) : (forall n, Q n -> nested_ext n (g n)) ->
-  forall ns k, nested_at k Q ns -> nesteds_ext ns (update_nested k g ns).
+Lemma update_nested_ext g : (forall n, nested_ext n (g n)) ->
+  forall ns k, nesteds_ext ns (update_nested k g ns).
 Proof.
-  intros Hg ns. induction ns as [|n r IH]; intros k H; destruct k; cbn [update_nested nested_at] in *; try constructor;
-    try apply nesteds_ext_refl; try apply ne_refl; try (apply Hg; exact H); try (apply IH; exact H).
+  intros Hg ns. induction ns as [|n r IH]; intros k; destruct k; cbn [update_nested] in *; try constructor;
+    try apply nesteds_ext_refl; try apply ne_refl; try apply Hg; try apply IH.
 Qed.
 
 (* appending at an address inside a message - into inline types and nested declarations, to any
-   depth - is an extension, for every address / action that is not the excluded one *)
-Lemma apply_at_ext a path : forall ps subs, at_ok path a ps subs ->
+   depth - is an extension, for every address and every action *)
+Lemma apply_at_ext a path : forall ps subs,
   props_ext ps (fst (apply_at path a ps subs)) /\ nesteds_ext subs (snd (apply_at path a ps subs)).
 Proof.
-  induction path as [|st rest IH]; intros ps subs Hok.
+  induction path as [|st rest IH]; intros ps subs.
   - cbn [apply_at]. destruct a; cbn [fst snd]; split;
       try apply props_ext_refl; try apply nesteds_ext_refl; [apply props_ext_snoc|apply nesteds_ext_napp].
-  - destruct st as [i|k]; cbn [apply_at at_ok fst snd] in *; split;
+  - destruct st as [i|k]; cbn [apply_at fst snd] in *; split;
       try apply props_ext_refl; try apply nesteds_ext_refl.
-    + eapply update_prop_ext; [|exact Hok]. apply in_field_ext.
-      * intros q Hq. apply IH. exact Hq.
-      * intros e He. destruct rest; [destruct a; try apply fe_refl; apply enum_snoc_ext; exact He|apply fe_refl].
-    + eapply update_nested_ext; [|exact Hok]. apply in_nested_ext.
-      * intros q s Hq. apply IH. exact Hq.
-      * intros e He. destruct rest; [destruct a; try apply ne_refl; apply enum_snoc_ext; exact He|apply ne_refl].
+    + apply update_prop_ext. apply in_field_ext.
+      * intros q. apply IH.
+      * intros e. destruct rest; [destruct a; try apply fe_refl; apply enum_snoc_ext|apply fe_refl].
+    + apply update_nested_ext. apply in_nested_ext.
+      * intros q s. apply IH.
+      * intros e. destruct rest; [destruct a; try apply ne_refl; apply enum_snoc_ext|apply ne_refl].
 Qed.
 
-Lemma apply_props_ext a path ps : at_ok path a ps NNil -> props_ext ps (apply_props path a ps).
-Proof. intros H. apply apply_at_ext. exact H. Qed.
+Lemma apply_props_ext a path ps : props_ext ps (apply_props path a ps).
+Proof. apply apply_at_ext. Qed.
 
-Lemma forall2_update_nth_at {A} (R : A -> A -> Prop) (g : A -> A) (Q : A -> Prop) k l :
-  (forall a, R a a) -> (forall a, Q a -> R a (g a)) -> nth_ok k Q l -> Forall2 R l (update_nth k g l).
+Lemma edit_element_ext e el : element_ext el (edit_element e el).
 Proof.
-  intros Hr Hg. revert k. induction l as [|x r IH]; intros k H; destruct k; cbn [update_nth]; constructor.
-  - apply Hg. exact H.
-  - apply forall2_refl. exact Hr.
-  - apply Hr.
-  - apply IH. exact H.
-Qed.
-
-Lemma edit_element_ext e el : element_edit_ok e el -> element_ext el (edit_element e el).
-Proof.
-  intros Hok. destruct e as [fi k p|fi k o|fi d|fi k mi p|fi k mi p|fi k mi p|fi k rt path act].
+  destruct e as [fi k p|fi k o|fi d|fi k mi p|fi k mi p|fi k mi p|fi k rt path act].
   7: { destruct rt as [|mi|mi|reply mi]; destruct el as [nm ps subs|nm ps subs|en|[nm base ms]|t];
-         cbn [edit_element element_edit_ok] in *; try apply element_ext_refl.
-       - destruct (apply_at_ext act path ps subs Hok) as [A B]. destruct (apply_at path act ps subs). constructor; assumption.
-       - destruct (apply_at_ext act path ps subs Hok) as [A B]. destruct (apply_at path act ps subs). constructor; assumption.
+         cbn [edit_element] in *; try apply element_ext_refl.
+       - destruct (apply_at_ext act path ps subs) as [A B]. destruct (apply_at path act ps subs). constructor; assumption.
+       - destruct (apply_at_ext act path ps subs) as [A B]. destruct (apply_at path act ps subs). constructor; assumption.
        - constructor. cbn [sv_methods] in *.
-         eapply forall2_update_nth_at; [apply method_ext_refl| |exact Hok].
-         intros m Hm. repeat split; try reflexivity; cbn.
-         + apply apply_props_ext. exact Hm.
+         apply forall2_update_nth; [apply method_ext_refl|].
+         intros m. repeat split; try reflexivity; cbn.
+         + apply apply_props_ext.
          + destruct (m_response m); [apply props_ext_refl|exact I].
        - constructor. cbn [sv_methods] in *.
-         eapply forall2_update_nth_at; [apply method_ext_refl| |exact Hok].
-         intros m Hm. repeat split; try reflexivity; cbn.
+         apply forall2_update_nth; [apply method_ext_refl|].
+         intros m. repeat split; try reflexivity; cbn.
          + apply props_ext_refl.
-         + cbv beta in Hm. destruct (m_response m); [apply apply_props_ext; exact Hm|exact I].
+         + destruct (m_response m); [apply apply_props_ext|exact I].
        - constructor. destruct t as [n ms|n rq rp|n en m|n en m]; [|destruct reply| |]; constructor;
-           try (eapply forall2_update_nth_at; [apply tmsg_ext_refl| |exact Hok]; intros x Hx; split; [reflexivity|apply apply_props_ext; exact Hx]);
+           try (apply forall2_update_nth; [apply tmsg_ext_refl|]; intros x; split; [reflexivity|apply apply_props_ext]);
            try (apply forall2_refl; apply tmsg_ext_refl);
-           try (split; [reflexivity|apply apply_props_ext; exact Hok]). }
+           try (split; [reflexivity|apply apply_props_ext]). }
   all: destruct el as [nm ps subs|nm ps subs|en|[nm base ms]|t];
-    cbn [edit_element element_edit_ok] in *; try apply element_ext_refl.
+    cbn [edit_element] in *; try apply element_ext_refl.
   - constructor; [apply props_ext_snoc|apply nesteds_ext_refl].
   - constructor; [apply props_ext_snoc|apply nesteds_ext_refl].
-  - destruct en as [n pf os]. cbn [e_name e_prefix e_opts] in *. constructor. exact Hok.
+  - destruct en as [n pf os]. cbn [e_name e_prefix e_opts] in *. constructor.
   - constructor. cbn [sv_methods]. apply forall2_update_nth; [apply method_ext_refl|].
     intros m. repeat split; try reflexivity; cbn.
     + apply props_ext_snoc.
@@ -948,41 +898,28 @@ Proof.
       try (split; [reflexivity|apply props_ext_snoc]).
 Qed.
 
-Lemma update_edit_ext e l : forall k,
-  nth_ok k (element_edit_ok e) l ->
-  Forall2 element_ext l (update_nth k (edit_element e) l).
+Lemma update_edit_ext e l k : Forall2 element_ext l (update_nth k (edit_element e) l).
 Proof.
-  intros k H. eapply forall2_update_nth_at; [apply element_ext_refl| |exact H].
-  intros el Hel. apply edit_element_ext. exact Hel.
+  apply forall2_update_nth; [apply element_ext_refl|]. intros el. apply edit_element_ext.
 Qed.
 
-Lemma nth_ok_trivial {A} (Q : A -> Prop) k l : (forall x, Q x) -> nth_ok k Q l.
-Proof. intros H. unfold nth_ok. destruct (nth_error l k); [apply H|exact I]. Qed.
-
 (* every C13 edit extends the source file in the sense of [file_src_ext] *)
-Theorem edit_file_ext e f : edit_ok e f -> file_src_ext f (edit_file e f).
+Theorem edit_file_ext e f : file_src_ext f (edit_file e f).
 Proof.
-  intros Hok. destruct e as [fi k p|fi k o|fi d|fi k mi p|fi k mi p|fi k mi p|fi k rt path act]; cbn [edit_file].
+  destruct e as [fi k p|fi k o|fi d|fi k mi p|fi k mi p|fi k mi p|fi k rt path act]; cbn [edit_file].
   3: { repeat split; try reflexivity. exists (jf_elements f), [d]. split; [|reflexivity].
        apply forall2_refl. apply element_ext_refl. }
   all: repeat split; try reflexivity; eexists; exists []; (split; [|cbn [jf_elements]; rewrite app_nil_r; reflexivity]).
-  all: apply update_edit_ext; try exact Hok.
-  all: apply nth_ok_trivial; intros el; destruct el; exact I.
+  all: apply update_edit_ext.
 Qed.
 
 (* ... hence so does every sequence of edits applied to that file (induction over the list) *)
-Fixpoint edits_ok (es : list edit) (f : jfile) : Prop :=
-  match es with
-  | [] => True
-  | e :: r => edit_ok e f /\ edits_ok r (edit_file e f)
-  end.
-
-Theorem edit_sequence_ext es : forall f, edits_ok es f ->
+Theorem edit_sequence_ext es : forall f,
   file_src_ext f (fold_left (fun g e => edit_file e g) es f).
 Proof.
-  induction es as [|e r IH]; intros f H; cbn [fold_left].
+  induction es as [|e r IH]; intros f; cbn [fold_left].
   - apply file_src_ext_refl.
-  - destruct H as [H1 H2]. eapply file_src_ext_trans; [apply edit_file_ext; exact H1|apply IH; exact H2].
+  - eapply file_src_ext_trans; [apply edit_file_ext|apply IH].
 Qed.
 
 (* ================================================================== the environment only grows *)
@@ -1057,7 +994,7 @@ Proof.
   - intros f path dflt. apply incl_refl.
   - intros nm ps ps' _ IH path dflt. cbn [exp_field]. intros t [<-|Hin]; [left; reflexivity|right; eapply IH; exact Hin].
   - intros nm ps ps' _ IH path dflt. cbn [exp_field]. intros t [<-|Hin]; [left; reflexivity|right; eapply IH; exact Hin].
-  - intros nm pfx opts extra _ path dflt. cbn [exp_field e_name]. apply incl_refl.
+  - intros nm pfx opts extra path dflt. cbn [exp_field e_name]. apply incl_refl.
   - intros it it' _ IH path dflt. cbn [exp_field]. apply IH.
   - intros it it' _ IH path dflt. cbn [exp_field]. apply IH.
   - intros extra path. cbn [exp_props]. intros t [].
@@ -1081,7 +1018,7 @@ Proof.
     intros t [<-|Hin]; [left; reflexivity|right].
     apply in_app_or in Hin. apply in_or_app. destruct Hin as [Hin|Hin]; [left|right; eapply IH; exact Hin].
     eapply (proj2 (exp_props_ext pkg file)); eassumption.
-  - intros nm pfx opts extra _ path. cbn [exp_nested e_name]. apply incl_refl.
+  - intros nm pfx opts extra path. cbn [exp_nested e_name]. apply incl_refl.
   - intros extra path. cbn [exp_nesteds]. intros t [].
   - intros n n' r r' _ IHn _ IHr path. cbn [exp_nesteds].
     apply incl_app; [apply incl_appl; apply IHn|apply incl_appr; apply IHr].
@@ -1090,7 +1027,7 @@ Qed.
 Lemma exp_element_ext pkg file e e' :
   element_ext e e' -> incl (exp_element camel pkg file e) (exp_element camel pkg file e').
 Proof.
-  intros H. destruct H as [nm ps ps' subs subs' Hps Hs|nm ps ps' subs subs' Hps Hs|en|nm pfx opts x Hne|nm base ms ms' HF|t t' Ht];
+  intros H. destruct H as [nm ps ps' subs subs' Hps Hs|nm ps ps' subs subs' Hps Hs|en|nm pfx opts x|nm base ms ms' HF|t t' Ht];
     cbn [exp_element]; try apply incl_refl.
   - apply (proj1 (exp_nesteds_ext pkg file)). constructor; assumption.
   - apply (proj1 (exp_nesteds_ext pkg file)). constructor; assumption.
